@@ -8,15 +8,6 @@ import (
 	"github.com/gobwas/ws"
 )
 
-// vCloseOracle: RFC 6455 §7.4 validity of a close payload (code + reason), with the open
-// region (1012-1014, >=5000) reported separately.
-func vCloseOracle(payload []byte) (valid, open bool) {
-	c := uint16(payload[0])<<8 | uint16(payload[1])
-	codeOK := vOr(vAnd(c >= 1000, c <= 1003), vOr(vAnd(c >= 1007, c <= 1011), vAnd(c >= 3000, c <= 4999)))
-	open = vOr(vAnd(c >= 1012, c <= 1014), c >= 5000)
-	return vAnd(codeOK, vUTF8Valid(payload[2:])), open
-}
-
 // C08_reply_exact: the automatic reply to every ping/pong/close is exactly what RFC 6455
 // asks for and is a frame the peer's own checks accept.
 func C08_reply_exact() {
